@@ -1,4 +1,4 @@
-package main
+package memsim
 
 // Concurrent histories with an interleaving-independent outcome.
 //
@@ -30,9 +30,7 @@ import (
 	"time"
 
 	imap "github.com/emersion/go-imap/v2"
-	"github.com/emersion/go-imap/v2/verif/internal/hx"
 	"github.com/emersion/go-imap/v2/verif/internal/kit"
-	"github.com/emersion/go-imap/v2/verif/internal/memsim"
 	"github.com/emersion/go-imap/v2/verif/internal/wiretok"
 	"github.com/emersion/go-imap/v2/verif/lockmon"
 )
@@ -53,8 +51,16 @@ func (m *inst) flagList() []string {
 	return l
 }
 
+// ConcReporter receives what a concurrent history observes. group is GroupView (on-the-wire view
+// consistency of one connection) or GroupModel (content differs from the owners' models).
+type ConcReporter interface {
+	ConcViolation(group, class, detail string, extra map[string]interface{})
+	Metric(name string, n int64)
+	Notef(format string, a ...interface{})
+}
+
 type crun struct {
-	w    *hx.W
+	w    ConcReporter
 	mem  *kit.Mem
 	desc string
 	mu   sync.Mutex
@@ -63,6 +69,10 @@ type crun struct {
 }
 
 func (cr *crun) violation(class, detail string, extra map[string]interface{}) {
+	cr.violationG(GroupModel, class, detail, extra)
+}
+
+func (cr *crun) violationG(group, class, detail string, extra map[string]interface{}) {
 	cr.mu.Lock()
 	already := cr.fail
 	cr.fail = true
@@ -74,7 +84,7 @@ func (cr *crun) violation(class, detail string, extra map[string]interface{}) {
 		extra = map[string]interface{}{}
 	}
 	extra["run"] = cr.desc
-	cr.w.Violation("concurrent/"+class, fmt.Sprintf("concurrent history (%s): %s: %s", cr.desc, class, detail), extra)
+	cr.w.ConcViolation(group, "concurrent/"+class, fmt.Sprintf("concurrent history (%s): %s: %s", cr.desc, class, detail), extra)
 }
 
 func (cr *crun) failed() bool { cr.mu.Lock(); defer cr.mu.Unlock(); return cr.fail }
@@ -89,6 +99,11 @@ type owner struct {
 	sel  string
 	own  map[string]*inst // box/uid
 	log  []string
+	// per-connection wire view (C08's invariants, valid under any interleaving)
+	count     int  // message count announced on this connection for the selected mailbox
+	counted   bool // a mailbox is selected and its EXISTS was seen
+	opsDone   *sync.WaitGroup
+	finalView []string
 }
 
 var cboxes = []string{"A", "B", "C"}
@@ -139,10 +154,65 @@ func (o *owner) cmd(line string) (lines []kit.RespLine, status string, all []byt
 			status = l.Status
 		}
 	}
+	o.observeView(line, lines, status)
 	o.cr.mu.Lock()
 	o.cr.cmds++
 	o.cr.mu.Unlock()
 	return lines, status, all, true
+}
+
+// observeView asserts, on this connection's own response stream, what must hold whatever the other
+// sessions are doing: sequence numbers within the announced count, the count shrinking only by
+// EXPUNGE, no EXPUNGE while a non-UID FETCH / STORE / SEARCH is answered.
+func (o *owner) observeView(cmdLine string, lines []kit.RespLine, status string) {
+	f := strings.Fields(strings.ToUpper(cmdLine))
+	if len(f) == 0 {
+		return
+	}
+	verb := f[0]
+	isSelect := verb == "SELECT" || verb == "EXAMINE"
+	noExpunge := verb == "FETCH" || verb == "STORE" || verb == "SEARCH"
+	if isSelect {
+		o.counted = false
+	}
+	bad := func(class, detail string) {
+		o.cr.violationG(GroupView, class, fmt.Sprintf("session %d, answering %q: %s", o.id, cmdLine, detail), map[string]interface{}{"commands": o.log})
+	}
+	for _, l := range lines {
+		if l.Tag != "*" {
+			continue
+		}
+		switch l.Kind {
+		case "EXISTS":
+			if isSelect || !o.counted {
+				o.count, o.counted = int(l.Num), true
+				break
+			}
+			if int(l.Num) < o.count {
+				bad("exists-shrinks", fmt.Sprintf("EXISTS %d although %d messages were announced and no EXPUNGE was sent", l.Num, o.count))
+			}
+			o.count = int(l.Num)
+		case "EXPUNGE":
+			if !o.counted {
+				break
+			}
+			if noExpunge {
+				bad("expunge-during-"+verb, fmt.Sprintf("EXPUNGE %d sent while answering a non-UID %s", l.Num, verb))
+			}
+			if l.Num < 1 || int(l.Num) > o.count {
+				bad("expunge-out-of-range", fmt.Sprintf("EXPUNGE %d with %d messages announced", l.Num, o.count))
+			} else {
+				o.count--
+			}
+		case "FETCH":
+			if o.counted && (l.Num < 1 || int(l.Num) > o.count) {
+				bad("fetch-out-of-range", fmt.Sprintf("FETCH %d with %d messages announced", l.Num, o.count))
+			}
+		}
+	}
+	if isSelect && status != "OK" {
+		o.counted = false
+	}
 }
 
 // must is cmd for commands that have to succeed on a correct server.
@@ -233,7 +303,7 @@ func (o *owner) fetchOwn(m *inst) (uint32, bool) {
 	for _, l := range lines {
 		switch {
 		case l.Tag == "*" && l.Kind == "FETCH":
-			fl := memsim.ParseFetch(l)
+			fl := ParseFetch(l)
 			if fl.Bad != "" || !fl.HasUID || fl.UID != m.uid {
 				continue
 			}
@@ -329,6 +399,9 @@ func (o *owner) copyOrMove(m *inst, verb, dest string) bool {
 
 func (o *owner) run(nBoxes, ops int, wg *sync.WaitGroup) {
 	defer wg.Done()
+	var once sync.Once
+	arrive := func() { once.Do(o.opsDone.Done) }
+	defer arrive() // (an owner that gives up early must not keep the others waiting at the barrier)
 	o.raw = o.cr.mem.DialRaw()
 	defer o.raw.Close()
 	if !o.raw.WaitFor(func(b []byte) bool { return strings.Contains(string(b), "\r\n") }, 120*time.Second) {
@@ -451,6 +524,29 @@ func (o *owner) run(nBoxes, ops int, wg *sync.WaitGroup) {
 			runtime.Gosched()
 		}
 	}
+	// quiescence: everybody has stopped changing things
+	arrive()
+	o.opsDone.Wait()
+	if o.sel != "" && !o.cr.failed() {
+		if _, _, ok := o.must("NOOP"); ok {
+			view := []string{}
+			okView := true
+			if o.count > 0 {
+				lines, st, _, ok := o.cmd("FETCH 1:* (UID)")
+				okView = ok && st == "OK"
+				for _, l := range lines {
+					if l.Tag == "*" && l.Kind == "FETCH" {
+						if fl := ParseFetch(l); fl.Bad == "" && fl.HasUID {
+							view = append(view, fmt.Sprint(fl.UID))
+						}
+					}
+				}
+			}
+			if okView {
+				o.finalView = view
+			}
+		}
+	}
 	o.cmd("LOGOUT")
 }
 
@@ -484,7 +580,7 @@ func audit(cr *crun, box string) ([]auditMsg, bool) {
 		if l.Tag != "*" || l.Kind != "FETCH" {
 			continue
 		}
-		fl := memsim.ParseFetch(l)
+		fl := ParseFetch(l)
 		if fl.Bad != "" || !fl.HasUID {
 			cr.violation("audit-unparsable", fmt.Sprintf("audit of %s: %s in %q", box, fl.Bad, l.Raw), nil)
 			return nil, false
@@ -511,12 +607,9 @@ func audit(cr *crun, box string) ([]auditMsg, bool) {
 	return out, true
 }
 
-var concFingerprints = map[uint64]bool{}
-
-func concurrentRun(w *hx.W, seed int64, sessions, ops, nBoxes, procs, yield int) {
+// ConcurrentRun executes one concurrent history and reports what it observes.
+func ConcurrentRun(w ConcReporter, seed int64, sessions, ops, nBoxes, procs, yield int) {
 	desc := fmt.Sprintf("seed=%d sessions=%d ops=%d boxes=%d GOMAXPROCS=%d yield=%d‰", seed, sessions, ops, nBoxes, procs, yield)
-	end := w.Begin("concurrent", desc, 600*time.Second)
-	defer end()
 	defer runtime.GOMAXPROCS(runtime.GOMAXPROCS(procs))
 	lockmon.Configure(seed, yield)
 	lockmon.Reset(true)
@@ -541,12 +634,13 @@ func concurrentRun(w *hx.W, seed int64, sessions, ops, nBoxes, procs, yield int)
 		base[b] = l
 	}
 	rng := rand.New(rand.NewSource(seed))
-	var wg sync.WaitGroup
+	var wg, opsDone sync.WaitGroup
 	var owners []*owner
 	for i := 0; i < sessions; i++ {
-		o := &owner{cr: cr, id: i, rng: rand.New(rand.NewSource(rng.Int63())), own: map[string]*inst{}}
+		o := &owner{cr: cr, id: i, rng: rand.New(rand.NewSource(rng.Int63())), own: map[string]*inst{}, opsDone: &opsDone}
 		owners = append(owners, o)
 		wg.Add(1)
+		opsDone.Add(1)
 		go o.run(nBoxes, ops, &wg)
 	}
 	wg.Wait()
@@ -555,7 +649,7 @@ func concurrentRun(w *hx.W, seed int64, sessions, ops, nBoxes, procs, yield int)
 		return
 	}
 	if p := mem.Log.Panics(); len(p) > 0 {
-		w.Violation("concurrent/server-panic@"+hx.PanicSite(p[0]), "panic in a server goroutine during a concurrent history: "+p[0], map[string]interface{}{"run": desc})
+		w.ConcViolation(GroupCrash, "concurrent/server-panic", "panic in a server goroutine during a concurrent history: "+p[0], map[string]interface{}{"run": desc})
 		return
 	}
 	// audit at quiescence
@@ -604,29 +698,23 @@ func concurrentRun(w *hx.W, seed int64, sessions, ops, nBoxes, procs, yield int)
 			}
 		}
 		nMsgs += int64(len(got))
+		// every session that has this mailbox selected issued NOOP once everybody had stopped: the
+		// message list it then sees through its own sequence numbers is the mailbox's actual list
+		var actual []string
+		for _, m := range got {
+			actual = append(actual, fmt.Sprint(m.uid))
+		}
+		for _, o := range owners {
+			if o.sel == b && o.finalView != nil {
+				if strings.Join(o.finalView, " ") != strings.Join(actual, " ") {
+					cr.violationG(GroupView, "view-after-noop", fmt.Sprintf("session %d: after NOOP at quiescence FETCH 1:* (UID) lists %v in %s, the mailbox holds %v", o.id, o.finalView, b, actual), map[string]interface{}{"commands": o.log})
+					return
+				}
+			}
+		}
 	}
 	w.Metric("concurrent_runs_audited", 1)
 	w.Metric("concurrent_messages_audited", nMsgs)
 	st := lockmon.Snapshot()
-	concFingerprints[st.Fingerprint] = true
-}
-
-func concurrentPhase(w *hx.W) {
-	rng := w.Rand("c09-concurrent")
-	n := w.Pick(160, 4000)
-	for i := 0; i < n; i++ {
-		seed := rng.Int63()
-		sessions := 2 + rng.Intn(7)
-		ops := 25 + rng.Intn(30)
-		nb := 2 + rng.Intn(2)
-		procs := []int{1, 2, 4, 16}[rng.Intn(4)]
-		yield := []int{0, 50, 200, 500}[rng.Intn(4)]
-		if !w.Mine(i) {
-			continue
-		}
-		concurrentRun(w, seed, sessions, ops, nb, procs, yield)
-		w.Case(uint64(seed))
-		w.Class(fmt.Sprintf("concurrent/sessions=%d/procs=%d/yield=%d", sessions, procs, yield))
-	}
-	w.Metric("concurrent_distinct_interleaving_fingerprints", int64(len(concFingerprints)))
+	w.Metric("concurrent_fingerprint", int64(st.Fingerprint&0x7fffffff))
 }
